@@ -1,0 +1,166 @@
+//! Verification facade.
+//!
+//! Compiled only with `--cfg fe2o3_amqp_verif`. It adds thin public wrappers
+//! over crate-private items so that an external harness can drive the real
+//! endpoint state machines step by step. Nothing here changes behaviour.
+
+use std::sync::{Arc, OnceLock};
+
+use fe2o3_amqp_types::{
+    performatives::{Begin, Disposition, Flow, Transfer},
+    states::SessionState,
+};
+
+use crate::{
+    endpoint::{IncomingChannel, InputHandle, OutgoingChannel, Session as _},
+    frames::amqp::{Frame, FrameBody},
+    session::{
+        frame::{SessionFrame, SessionFrameBody, SessionOutgoingItem},
+        Session,
+    },
+    Payload,
+};
+
+fn to_frame(frame: SessionFrame) -> Frame {
+    let SessionFrame { channel, body } = frame;
+    let body = match body {
+        SessionFrameBody::Attach(p) => FrameBody::Attach(p),
+        SessionFrameBody::Flow(p) => FrameBody::Flow(p),
+        SessionFrameBody::Transfer {
+            performative,
+            payload,
+        } => FrameBody::Transfer {
+            performative,
+            payload,
+        },
+        SessionFrameBody::Disposition(p) => FrameBody::Disposition(p),
+        SessionFrameBody::Detach(p) => FrameBody::Detach(p),
+        SessionFrameBody::Begin(p) => FrameBody::Begin(p),
+        SessionFrameBody::End(p) => FrameBody::End(p),
+    };
+    Frame { channel, body }
+}
+
+fn item_to_frames(item: Option<SessionOutgoingItem>) -> Vec<Frame> {
+    match item {
+        None => Vec::new(),
+        Some(SessionOutgoingItem::SingleFrame(f)) => vec![to_frame(f)],
+        Some(SessionOutgoingItem::MultipleFrames(fs)) => fs.into_iter().map(to_frame).collect(),
+    }
+}
+
+/// Counters of a session endpoint
+#[derive(Debug, Clone, PartialEq, Eq)]
+pub struct SessionCounters {
+    /// next-outgoing-id
+    pub next_outgoing_id: u32,
+    /// next-incoming-id
+    pub next_incoming_id: u32,
+    /// remote-incoming-window
+    pub remote_incoming_window: u32,
+    /// remote-outgoing-window
+    pub remote_outgoing_window: u32,
+    /// incoming-window
+    pub incoming_window: u32,
+    /// outgoing-window
+    pub outgoing_window: u32,
+    /// frames held back by the remote-incoming-window
+    pub buffered: usize,
+    /// transfers received since the last session flow
+    pub need_flow_count: u32,
+    /// entries in the delivery-id to delivery-tag map
+    pub unsettled_ids: usize,
+}
+
+/// A session endpoint detached from any engine
+#[derive(Debug)]
+pub struct SessionProbe(Session);
+
+impl SessionProbe {
+    /// Creates a session endpoint in the given state
+    pub fn new(builder: crate::session::Builder, channel: u16, mapped: bool) -> Self {
+        let state = if mapped {
+            SessionState::Mapped
+        } else {
+            SessionState::BeginSent
+        };
+        Self(builder.into_session(OutgoingChannel(channel), state, Arc::new(OnceLock::new())))
+    }
+
+    /// `on_incoming_begin`
+    pub fn on_incoming_begin(&mut self, channel: u16, begin: Begin) -> Result<(), String> {
+        self.0
+            .on_incoming_begin(IncomingChannel(channel), begin)
+            .map_err(|e| format!("{:?}", e))
+    }
+
+    /// `on_outgoing_transfer`
+    pub fn on_outgoing_transfer(
+        &mut self,
+        input_handle: u32,
+        transfer: Transfer,
+        payload: Payload,
+    ) -> Result<Vec<Frame>, String> {
+        self.0
+            .on_outgoing_transfer(InputHandle(input_handle), transfer, payload)
+            .map(item_to_frames)
+            .map_err(|e| format!("{:?}", e))
+    }
+
+    /// `on_incoming_flow`
+    pub async fn on_incoming_flow(&mut self, flow: Flow) -> Result<Vec<Frame>, String> {
+        self.0
+            .on_incoming_flow(flow)
+            .await
+            .map(item_to_frames)
+            .map_err(|e| format!("{:?}", e))
+    }
+
+    /// `on_incoming_transfer` followed by `maybe_outgoing_session_flow`, as the engine does
+    pub async fn on_incoming_transfer(
+        &mut self,
+        transfer: Transfer,
+        payload: Payload,
+    ) -> (Result<Option<Disposition>, String>, Vec<Frame>) {
+        let r = self
+            .0
+            .on_incoming_transfer(transfer, payload)
+            .await
+            .map_err(|e| format!("{:?}", e));
+        let frames = item_to_frames(self.0.maybe_outgoing_session_flow());
+        (r, frames)
+    }
+
+    /// `on_incoming_disposition`
+    pub fn on_incoming_disposition(
+        &mut self,
+        disposition: Disposition,
+    ) -> Result<Option<Vec<Disposition>>, String> {
+        self.0
+            .on_incoming_disposition(disposition)
+            .map_err(|e| format!("{:?}", e))
+    }
+
+    /// `on_outgoing_disposition`
+    pub fn on_outgoing_disposition(&mut self, disposition: Disposition) -> Result<Frame, String> {
+        self.0
+            .on_outgoing_disposition(disposition)
+            .map(to_frame)
+            .map_err(|e| format!("{:?}", e))
+    }
+
+    /// The endpoint's counters
+    pub fn counters(&self) -> SessionCounters {
+        SessionCounters {
+            next_outgoing_id: self.0.next_outgoing_id,
+            next_incoming_id: self.0.next_incoming_id,
+            remote_incoming_window: self.0.remote_incoming_window,
+            remote_outgoing_window: self.0.remote_outgoing_window,
+            incoming_window: self.0.incoming_window,
+            outgoing_window: self.0.outgoing_window,
+            buffered: self.0.remote_incoming_window_exhausted_buffer.len(),
+            need_flow_count: self.0.need_flow_count,
+            unsettled_ids: self.0.delivery_tag_by_id.len(),
+        }
+    }
+}
